@@ -10,11 +10,17 @@ import Driver.OpsPath
 import Driver.OpsFs
 import Driver.OpsArgs
 import Driver.OpsHeader
+import Driver.OpsFsPath
+import Driver.OpsConn
+import Driver.OpsDateIP
+import Driver.OpsLB
+import Driver.OpsPipe
+import Driver.OpsCookie
 
 open Fh Fh.Driver
 
 def handlers : List (String → List Bytes → Option String) :=
-  [opsByteClass, opsIntCodec, opsPath, opsFs, opsArgs, opsHeader]
+  [opsByteClass, opsIntCodec, opsPath, opsFs, opsArgs, opsHeader, opsConn, opsDateIP, opsFsPath, opsLB, opsPipe, opsCookie]
 
 def dispatch (line : String) : String :=
   match (line.splitOn " ").filter (· ≠ "") with
